@@ -69,7 +69,7 @@ def dump (s : S) : String := Id.run do
           let (sx, cx) := classOf seenX xa
           seenX := sx
           pure ("I", s!"#x{cx}.{i}")
-      parts := parts ++ [s!"r{k}:{kind} nu=#{c} ri={r.ridx} X={showRat (s.getX r.x)} xs={xs} b={showBasis r.basis} ph={r.ph} v={showSparse (s.arr r.nu)}"]
+      parts := parts ++ [s!"r{k}:{kind} nu=#{c} ri={r.ridx} X={showRat (s.getX r.x)} xs={xs} b={showBasis r.basis} ph={r.ph} pk={r.pkg} v={showSparse (s.arr r.nu)}"]
     | .set t =>
       let mut cs : List String := []
       for id in t.rows do
@@ -79,7 +79,9 @@ def dump (s : S) : String := Id.run do
       let (sx, cx) := classOf seenX t.xa
       seenX := sx
       let vs := t.rows.zipIdx.map fun p => s!"v{p.2}={showSparse (s.arr p.1)}"
-      parts := parts ++ [s!"r{k}:P rows={joinWith "," cs} xa=#x{cx} ri={joinWith "," (t.ridxs.map toString)} X={showDense (s.xarrs.getD t.xa [])} b={showBasis t.basis} ph={t.ph} {joinWith " " vs}"]
+      let kind := if t.series then "S" else "P"
+      let xs := ((s.xarrs.getD t.xa []).drop t.xoff).take t.rows.length
+      parts := parts ++ [s!"r{k}:{kind} rows={joinWith "," cs} xa=#x{cx}+{if t.rows.isEmpty then 0 else t.xoff} ri={joinWith "," (t.ridxs.map toString)} X={showDense xs} b={showBasis t.basis} ph={t.ph} pk={t.pkg} {joinWith " " vs}"]
     k := k + 1
   return joinWith " | " parts
 
@@ -107,9 +109,13 @@ def parseOp (s : S) (line : String) : Option (Op Rat) :=
     some (.backwards (← parseRef a) c x)
   | ["setbasis", a, b] => do some (.setBasis (← parseRef a) (← parseBArg b))
   | ["setx", a, x] => do some (.setX (← parseRef a) (← parseRat? x))
-  | ["mkset", ms] => do some (.mkSet (← (splitComma ms).mapM parseRef))
+  | ["mkset", ms] => do some (.mkSet false (← (splitComma ms).mapM parseRef))
+  | ["mkseries", ms] => do some (.mkSet true (← (splitComma ms).mapM parseRef))
+  | ["setcopy", t, b] => do some (.setCopy (← parseRef t) (← parseBArg b))
+  | ["slice", t, i, j] => do some (.slice (← parseRef t) (← i.toNat?) (← j.toNat?))
   | ["item", t, i] => do some (.item (← parseRef t) (← i.toNat?))
   | ["setsx", t, i, x] => do some (.setSetX (← parseRef t) (← i.toNat?) (← parseRat? x))
+  | ["reset", a, p] => do some (.reset (← parseRef a) (← p.toNat?))
   | ["reduce", t, order] => do
     some (.reduce (← parseRef t) (← (splitComma (if order == "-" then "" else order)).mapM (·.toNat?)))
   | _ => none
@@ -122,6 +128,19 @@ def step (st : St) (line : String) : St × String :=
     | some n, some mw =>
       if mw.length = n then ({ s := { nchem := n, mw := mw } }, "ok") else (st, "bad-op")
     | _, _ => (st, "bad-op")
+  | ["alt", ids, mws] =>
+    match (splitComma ids).mapM (·.toNat?), parseRats mws with
+    | some ids, some mw =>
+      if ids.length = mw.length then ({ s := { s with alts := s.alts ++ [{ ids := ids, mw := mw }] } }, "ok")
+      else (st, "bad-op")
+    | _, _ => (st, "bad-op")
+  | ["applys2", a, p, feed] =>
+    match parseRef a, p.toNat?, parseRats feed with
+    | some a, some p, some n =>
+      match s.applyStrPkg a p n with
+      | .ok out => (st, s!"out={showDense out} | {dump s}")
+      | .error e => (st, s!"err={e.toString} | {dump s}")
+    | _, _, _ => (st, "bad-op")
   | ["apply", a, feed] =>
     match parseRef a, parseRats feed with
     | some a, some n =>
@@ -142,7 +161,9 @@ def step (st : St) (line : String) : St × String :=
     | some a, some b, some n =>
       match s.valOf a, s.valOf b with
       | .ok va, .ok vb =>
-        match (do let c ← va.addSub s.mw false (some vb); c.addSub s.mw true (some vb)) with
+        match (do let ob ← s.optValFor a (some b)
+                  let c ← va.addSub (s.mwOf (s.pkgOf a)) false ob
+                  c.addSub (s.mwOf (s.pkgOf a)) true ob) with
         | .ok d => (st, s!"out={showDense (react d.v d.ridx d.x n)} out2={showDense (react va.v va.ridx va.x n)} | {dump s}")
         | .error e => (st, s!"err={e.toString} | {dump s}")
       | _, _ => (st, s!"err=badRef | {dump s}")
